@@ -94,7 +94,7 @@ func genC12(r *Rng, n int, tier string, emit func(Case)) {
 		x := jsonValue(rr, rr.Range(0, maxd))
 		if i%40 == 17 {
 			// a long chain of containers (a reply thread, a category tree): depth far beyond what breadth-first random values reach
-			depth := []int{30, 70, 130, 200}[rr.Intn(4)]
+			depth := []int{30, 70, 130, 200, 450, 700, 1100}[rr.Intn(7)]
 			var v interface{} = jsonValue(rr, 1)
 			for dpt := 0; dpt < depth; dpt++ {
 				if rr.Bool() {
